@@ -1535,6 +1535,12 @@ pub fn step(m: &M, cfg: &SpecCfg, actor: &Actor, line: &str) -> Option<Exp> {
             e.actor_unchecked = true;
             Some(e)
         }
+        // registration commands repeated by a registered client are refused: the user stays
+        // what its registration made it
+        "USER" | "PASS" => {
+            e.actor_unchecked = true;
+            Some(e)
+        }
         _ => None,
     }
 }
